@@ -2,7 +2,7 @@
    bool, option, unit, list, prod, sumbool, sumor are mapped to OCaml's; Z, positive, nat, ascii stay inductive. *)
 Require Extraction.
 Require Import ExtrOcamlBasic.
-From CF Require Import ListAux Defs Burn Core Cert Machines Config GreedyModel Txt.
+From CF Require Import ListAux Defs Burn Core Cert Machines Config GreedyModel Txt DictForm.
 Extraction Language OCaml.
 Extraction "model.ml"
   nv mult Vg wfb valg nedges_g genus_g degD graph_eqb div_eqb connected_b
@@ -19,4 +19,5 @@ Extraction "model.ml"
   is_legal_set_firing legal_b superstable_enum out_degree_S cfg_le cfg_eq cfg_lt is_parking_n is_parking generate_parking parking_count det count_superstables
   greedy greedy_budget indep_number min_degree is_complete_simple complete_multipartite multipartite_formula_as_implemented
   read_graph read_divisor read_script read_orientation write_graph write_divisor write_script write_orientation name_ok py_int print_Z strip
-  oinit oconstruct set_orientation check_fullness o_divisor o_reverse o_get dir_at full_b.
+  oinit oconstruct set_orientation check_fullness o_divisor o_reverse o_get dir_at full_b
+  dedge_list odict_pairs graph_from_dict divisor_from_dict script_from_dict orientation_from_dict.
